@@ -210,7 +210,7 @@ class GenElab:
         fn = lambda name, kind, decos: self._with(self.member(name, kind), decos)   # noqa: E731
         shape = rng.choice(["prop-missing-accessor", "prop-accessor-of-other-base", "inherited-static", "diamond-posts",
                             "invariant-events", "special-of-second-base", "late-decoration", "callable-object-on-base",
-                            "plain-mixin", "snapshot-misuse"])
+                            "plain-mixin", "snapshot-misuse", "plain-chain-under-meta"])
         order = rng.choice([[0, 1], [1, 0]])
         if shape == "prop-missing-accessor":
             # one base shows the property without the accessor, the other one with it and with contracts
@@ -248,6 +248,12 @@ class GenElab:
             ops = [self._cls([], [fn("f", "plain", rng.choice([[req()], [req(), ens()], [ens()]]) + [["foreign", self.fk, "obj"]])]),
                    self._cls([0], [fn("f", "plain", rng.choice([[], [req()], [ens()]]))]),
                    self._cls(rng.choice([[0], [1]]), [fn("f", "plain", rng.choice([[], [ens()]]))])]
+        elif shape == "plain-chain-under-meta":
+            # an ordinary class with invariants, an ordinary sub-class that only inherits them, then a class on DBC with
+            # an invariant of its own: the ancestors keep their lists
+            ops = [self._cls([], [fn("f", "plain", [])], invs=[self._inv(rng.choice(["CALL", "ALL"]))], dbc=False),
+                   self._cls([0], rng.choice([[], [fn("g", "plain", [])]]), dbc=False),
+                   self._cls([1], rng.choice([[], [fn("g", "plain", [])]]), invs=[self._inv("CALL")], dbc=True)]
         elif shape == "snapshot-misuse":
             # an unnamed snapshot with several parameters above a postcondition: the only reason to reject the definition
             bad = ["invalid", rng.choice(["snapshot_default_args_no_name", "snapshot_many_args_no_name",
